@@ -5,7 +5,7 @@ optimum of the general form.
 specs/lp/LpDefs.tla   exact LP semantics over integer data: every basis, integer determinants, Cramer;
                       the four classes stated independently; optimum = least cost over all feasible bases
 specs/lp/Lp.tla       bounded spaces of standard-form programs (exhaustive small, seeded pseudo-random up to
-                      4x7, classic cycling examples in all 24 column orders) + theorems TLC checks on every
+                      4x7 incl. slack form [R|I], classic cycling examples in all 24 column orders) + theorems TLC checks on every
                       generated program (Exclusive, ClassAgrees, CertValue, WeakDuality, Shape, Invariance)
 specs/lp/LpConvert.tla general-form programs classified on the general form (vertices and extreme rays) +
                       theorem ConvertPreserves (textbook standard form has the same class and optimum)
@@ -62,7 +62,7 @@ def families(th, seed):
     def std(name, mode, m, n, a, b, c, count=None, shards=4):
         if mode == "exh":
             count = _size(m, n, a, b, c)
-        F.append((name, "lp/Lp.tla", "lp/Lp.cfg", _std(mode, m, n, a, b, c, count), shards, mode == "rnd"))
+        F.append((name, "lp/Lp.tla", "lp/Lp.cfg", _std(mode, m, n, a, b, c, count), shards, mode != "exh"))
 
     def gen(name, mode, nv, ni, ne, d, h, count=None, shards=4):
         if mode == "exh":
@@ -85,20 +85,23 @@ def families(th, seed):
     std("rnd 2x5 [-2,2]", "rnd", 2, 5, (2, 2), (1, 2), (2, 2), 1500 * k, shards=w)
     std("rnd 3x3 square [-2,3]", "rnd", 3, 3, (2, 3), (2, 3), (1, 1), 2000 * k, shards=w // 2)
     std("rnd 3x5 A[-1,2] b[0,2] c[-2,2]", "rnd", 3, 5, (1, 2), (0, 2), (2, 2), 1500 * k, shards=w)
-    std("rnd 3x6 [-2,3]", "rnd", 3, 6, (2, 3), (2, 3), (2, 3), 2000 * k, shards=2 * w)
-    std("rnd 3x6 degenerate A[-1,1] b[0,1] c[-2,1]", "rnd", 3, 6, (1, 1), (0, 1), (2, 1), 2000 * k, shards=2 * w)
+    std("rnd 3x6 [-2,3]", "rnd", 3, 6, (2, 3), (2, 3), (2, 3), 1500 * k, shards=2 * w)
+    std("rnd 3x6 degenerate A[-1,1] b[0,1] c[-2,1]", "rnd", 3, 6, (1, 1), (0, 1), (2, 1), 1500 * k, shards=2 * w)
+    # [R | I] x = b >= 0 with cost [cR | 0]: the shape Convert produces, slack basis feasible, degenerate-rich
+    std("slack 2x5 R[-3,3] b[0,1] c[-3,2]", "slack", 2, 5, (3, 3), (0, 1), (3, 2), 1000 * k, shards=w // 2)
+    std("slack 3x7 R[-3,3] b[0,1] c[-3,2]", "slack", 3, 7, (3, 3), (0, 1), (3, 2), 600 * k, shards=2 * w)
     std("rnd 4x4 square [-1,2]", "rnd", 4, 4, (1, 2), (1, 2), (1, 1), 500 * k, shards=w // 2)
     std("rnd 4x6 A[-1,1] b[0,2] c[-1,1]", "rnd", 4, 6, (1, 1), (0, 2), (1, 1), 160 * k, shards=w)
-    std("rnd 4x7 [-1,2]", "rnd", 4, 7, (1, 2), (1, 2), (1, 2), 120 * k, shards=2 * w)
+    std("rnd 4x7 [-1,2]", "rnd", 4, 7, (1, 2), (1, 2), (1, 2), 96 * k, shards=2 * w)
     # ---- general form (Convert) ----
     gen("conv exh nv1 ni2 [-2,2]", "exh", 1, 2, 0, (2, 2), (2, 2), shards=1)
     gen("conv rnd nv1 ni3", "rnd", 1, 3, 0, (2, 2), (2, 3), 500 * k, shards=w // 2)
     gen("conv rnd nv2 ni2", "rnd", 2, 2, 0, (2, 2), (2, 3), 1000 * k, shards=w // 2)
-    gen("conv rnd nv2 ni3", "rnd", 2, 3, 0, (2, 2), (2, 3), 500 * k, shards=2 * w)
+    gen("conv rnd nv2 ni3", "rnd", 2, 3, 0, (2, 2), (2, 3), 320 * k, shards=2 * w)
     gen("conv rnd nv2 ni2 ne1", "rnd", 2, 2, 1, (2, 2), (2, 3), 600 * k, shards=w)
     gen("conv rnd nv3 ni3", "rnd", 3, 3, 0, (1, 2), (1, 2), 120 * k, shards=w)
     gen("conv rnd nv3 ni2 ne1", "rnd", 3, 2, 1, (1, 2), (1, 2), 120 * k, shards=w)
-    gen("conv rnd nv2 ni3 ne1", "rnd", 2, 3, 1, (1, 2), (1, 2), 40 * k, shards=w)
+    gen("conv rnd nv2 ni3 ne1", "rnd", 2, 3, 1, (1, 2), (1, 2), 24 * k, shards=w)
     if th:
         gen("conv rnd nv2 ni4", "rnd", 2, 4, 0, (1, 2), (1, 2), 400, shards=8)
     return F
@@ -106,9 +109,8 @@ def families(th, seed):
 
 def run_lp(ctx):
     th = ctx.tier == "thorough"
-    bins = [("default", ctx.build(""))]
-    if th:
-        bins.append(("noasm", ctx.build("noasm")))
+    # default (assembly kernels) and pure-Go kernels: the float solves inside Simplex round differently
+    bins = [("default", ctx.build("")), ("noasm", ctx.build("noasm"))]
     wd = ["watchdog=5s" if th else "watchdog=3s", "maxhangs=8"]
 
     # ---- R1: invariance of class and optimum under re-presentation of the program -------------
@@ -120,7 +122,7 @@ def run_lp(ctx):
 
     def r1_b():
         ctx.tlc("lp/Lp.tla", "lp/Lp.cfg", workers=2, name="R1 Lp theorems + Invariance, rnd 2x4",
-                subst=dict(_std("rnd", 2, 4, (1, 2), (1, 2), (1, 2), 1500 if th else 150), **inv))
+                subst=dict(_std("rnd", 2, 4, (1, 2), (1, 2), (1, 2), 1500 if th else 100), **inv))
 
     def r1_c():
         ctx.tlc("lp/Lp.tla", "lp/Lp.cfg", workers=4, name="R1 Lp theorems + Invariance, rnd 3x5",
